@@ -213,11 +213,31 @@ def check_programs(ck, progs, cfg="hook", opts=None, timeout=None, sig_prefix="M
                     break
             if problem is None and len(res["steps"]) != len(m["view"]):
                 problem = "ran %d steps, expected %d" % (len(res["steps"]), len(m["view"]))
+            if problem and _address_dependent(c, case, res):
+                # the program's output depends on the addresses it printed (it sliced, measured or rewrote a text that
+                # contains one): two runs of the real interpreter disagree with each other, so there is nothing to compare
+                ck.count("discarded_address_dependent")
+                problem = None
             if problem:
                 ck.violation("%s(%s)" % (sig_prefix, classify(problem)), replay_of(p, c, problem, m))
             if on_result is not None:
                 on_result(p, m, res)
     return len(keep), discarded
+
+
+def _raw_view(res):
+    # addresses masked: what is compared is whether the two runs still differ once the addresses themselves are gone
+    return [(st.get("res"), [norm(t) for t in st.get("out", [])], [norm(t) for t in st.get("msgs", [])]) for st in res.get("steps", [])]
+
+
+def _address_dependent(cfg, case, res):
+    text = json.dumps([(st.get("out"), st.get("msgs")) for st in res.get("steps", [])])
+    if "0x" not in text and "@ " not in text:
+        return False
+    again = common.run_batch(cfg, [case], shards=1, timeout=120)[0]
+    if "abort" in again:
+        return False
+    return _raw_view(again) != _raw_view(res)
 
 
 def classify(problem):
